@@ -493,3 +493,16 @@ package tchannel
 //@   requires receivedTTL(f.Frame) == be32(f.Payload, 1) && relayMaxOf(f.Frame) == r.maxTimeout
 //@   modifies all
 //@   property C14
+
+// When a connection fails -- by a protocol error as much as by a network error --
+// BOTH exchange tables are stopped: the outbound one so that callers get the
+// error, the inbound one so that the handlers' contexts are cancelled (the
+// per-call watcher of dispatchInbound reacts to the exchange's error notifier).
+//@ func (c *Connection) protocolError(id uint32, err error) (e error)
+//@   label inbound-calls-are-stopped-whenever-outbound-ones-are
+//@   ensures nstopped(old(c.inbound)) - old(nstopped(c.inbound)) == nstopped(old(c.outbound)) - old(nstopped(c.outbound))
+//@   property C14
+//@ func (c *Connection) connectionError(site string, err error) (out error)
+//@   label inbound-calls-are-stopped-whenever-outbound-ones-are
+//@   ensures nstopped(old(c.inbound)) - old(nstopped(c.inbound)) == nstopped(old(c.outbound)) - old(nstopped(c.outbound))
+//@   property C14
